@@ -1,21 +1,8 @@
-#![allow(dead_code)]
 //! vcheck <Cxx> <quick|thorough|replay FILE>
 
-mod conv;
-#[macro_use]
-mod engine;
-mod gen;
-mod gens;
-mod model;
-mod props;
-mod shim;
-mod tlsfix;
-mod tlspeer;
-mod transport;
-mod vals;
-mod wire;
 
-use engine::{Prop, Tier};
+use vcheck::engine::{self, Prop, Tier};
+use vcheck::props;
 use std::path::Path;
 
 fn dispatch<P: Prop>(p: P, mode: &str, arg: Option<&str>) -> i32 {
